@@ -1404,9 +1404,11 @@ class DiameterMessage:
         self._avps = list()
 
         #: Gets all DiameterMessage attributes based on DiameterAVP objects.
+        #: Attributes renamed through update_key() may not contain "_avp", so
+        #: they are found by what they refer to.
         avps_keys = list()
-        for avp_key in self.__dict__.keys():
-            if "_avp" in avp_key and avp_key != "_avps":
+        for avp_key, item in self.__dict__.items():
+            if isinstance(item, DiameterAVP):
                 avps_keys.append(avp_key)
 
         #: Goes over each DiameterMessage attribute based on DiameterAVP 
